@@ -45,12 +45,14 @@ Proof. reflexivity. Qed.
 Theorem gen_updateChan_agrees : forall l d, upd_of Gen.TaskMgrCode.code_updateChan l d = upd_step l d.
 Proof. intros [|x xs] [y|]; reflexivity. Qed.
 
-(* initTaskManager: a Graph's task manager waits for all, a Workflow's for one; the hand-off channel has one slot
+(* initTaskManager / graph.compile: a Graph's task manager waits for all, a Workflow's - and only a Workflow's - for
+   one; the hand-off channel has one slot
    (the LTS's [done : option entry]; an unbuffered channel or a wider one is another protocol) *)
 Theorem gen_tm_init_agrees :
   (forall eager, needAll_of Gen.TaskMgrCode.code_tm_init eager = negb eager)
-  /\ ti_done_cap Gen.TaskMgrCode.code_tm_init = 1.
-Proof. split; [intros [|]|]; reflexivity. Qed.
+  /\ ti_done_cap Gen.TaskMgrCode.code_tm_init = 1
+  /\ ti_eager_iff_workflow Gen.TaskMgrCode.code_tm_init = true.
+Proof. split; [intros [|]|split]; reflexivity. Qed.
 
 (* ---- what the regenerated programs mean in the LTS ---- *)
 
